@@ -27,6 +27,26 @@ func (q Quantizer) Validate() error {
 	}
 }
 
+// ValidateFor validates the quantizer and checks that it can be built for a
+// vector index of the given vector size and distance metric.
+func (q Quantizer) ValidateFor(vectorSize uint, distanceMetric string) error {
+	if err := q.Validate(); err != nil {
+		return err
+	}
+	// Hamming and jaccard indices always use the binary store, the configured
+	// quantizer is not used for them.
+	if q.Type != QuantizerProduct || distanceMetric == DistanceHamming || distanceMetric == DistanceJaccard {
+		return nil
+	}
+	if distanceMetric != DistanceEuclidean && distanceMetric != DistanceCosine && distanceMetric != DistanceDot {
+		return fmt.Errorf("distance metric %s not supported for product quantization", distanceMetric)
+	}
+	if int(vectorSize)%q.Product.NumSubVectors != 0 {
+		return fmt.Errorf("vector size %d must be divisible by numSubVectors %d", vectorSize, q.Product.NumSubVectors)
+	}
+	return nil
+}
+
 type BinaryQuantizerParamaters struct {
 	// The threshold value for the binary quantizer. It is a pointer to distinguish
 	// between 0 value vs not set.
